@@ -1203,15 +1203,35 @@ class World:
                 x_exp = _scipy_spsolve(M, RHS)
             except Exception:
                 M = None
+        via_default = bool(mode) and mode.startswith("def_")
+        if via_default:
+            # the other seam: the module-level default solver of pdesolver.py is
+            # replaced for the duration of this one call (recording pass-through,
+            # or an allocation failure inside the sparse factorisation)
+            mode = {"def_record": "ext", "def_raise": "ext_raise"}[mode]
+            self.probes["seam:default-solver-patched"] += 1
         fake = FakeSolver(mode) if mode else None
         try:
-            if fake is not None:
+            if via_default:
+                orig_sp = self.ps.spsolve
+                self.ps.spsolve = fake
+                try:
+                    ret = pf.solvePDE(vent.obj, user_terms)
+                finally:
+                    self.ps.spsolve = orig_sp
+            elif fake is not None:
                 ret = pf.solvePDE(vent.obj, user_terms, externalsolver=fake)
             else:
                 ret = pf.solvePDE(vent.obj, user_terms)
             got = ("ok", ret)
         except Exception as ex:
             got = ("raise", type(ex).__name__)
+        if via_default and not fake.calls:
+            # the library does not reach its solver through the patched module
+            # attribute (any more): not demanded by any property, the call then
+            # simply ran unpatched
+            self.stats["seam:default-patch-not-effective"] += 1
+            fake, mode = None, None
         # ---- classify
         fault = None
         if mode == "ext_raise" and fake.calls:
